@@ -53,12 +53,19 @@ Vector3 RotMatToVec(const Matrix3& m) {
 
 		return v * static_cast<float>(std::asin(sin2ang * 0.5) / sin2ang);
 	}
-	if (cosang > -1) {
-		Vector3 v(m[1][2] - m[2][1], m[2][0] - m[0][2], m[0][1] - m[1][0]);
-		v.Normalize();
-		return v * static_cast<float>(std::acos(cosang));
+	// Antisymmetric part: 2 * sin(angle) * axis
+	Vector3 asym(m[1][2] - m[2][1], m[2][0] - m[0][2], m[0][1] - m[1][0]);
+	double sin2ang = asym.length();
+	if (cosang > -1 && sin2ang > 1e-3) {
+		asym.Normalize();
+		return asym * static_cast<float>(std::acos(cosang));
 	}
-	// cosang <= -1, sinang == 0
+
+	// (Nearly) a half turn: the antisymmetric part vanishes, so take the axis from the
+	// symmetric part instead. The squared components are on the diagonal...
+	if (cosang < -1)
+		cosang = -1;
+
 	double x = (m[0][0] - cosang) * 0.5;
 	double y = (m[1][1] - cosang) * 0.5;
 	double z = (m[2][2] - cosang) * 0.5;
@@ -76,13 +83,17 @@ Vector3 RotMatToVec(const Matrix3& m) {
 			  static_cast<float>(std::sqrt(z)));
 	v.Normalize();
 
-	if (m[1][2] < m[2][1])
-		v.x = -v.x;
-	if (m[2][0] < m[0][2])
-		v.y = -v.y;
-	if (m[0][1] < m[1][0])
-		v.z = -v.z;
-	return v * PI;
+	// ...the signs relative to the largest component in the off-diagonal sums...
+	int k = (v.x >= v.y && v.x >= v.z) ? 0 : (v.y >= v.z ? 1 : 2);
+	for (int i = 0; i < 3; i++)
+		if (i != k && m[k][i] + m[i][k] < 0)
+			v[i] = -v[i];
+
+	// ...and the overall direction in what is left of the antisymmetric part.
+	if (asym.dot(v) < 0)
+		v = Vector3(-v.x, -v.y, -v.z);
+
+	return v * static_cast<float>(std::atan2(sin2ang * 0.5, cosang));
 }
 
 Matrix3 CalcAverageRotation(const std::vector<Matrix3>& rots) {
